@@ -300,6 +300,27 @@ func c12Run(c *mc.Ctx) {
 			c12Envelope(c, c12Env{NameLen: 4, Type: 1, Seq: int32(uint32(1) << i)}, true)
 		}
 	}
+	// per-Read deviations on short envelopes
+	bound := 1
+	if th {
+		bound = 2
+	}
+	var devN int64
+	for _, nl := range []int{0, 1, 5, 40} {
+		for _, wl := range []bool{false, true} {
+			if !c.Mine() {
+				continue
+			}
+			n, ok := exploreEnv(c, bound, func() {
+				c12Envelope(c, c12Env{NameLen: nl, Type: 2, Seq: -2, Env: EnvCfg{Chunk: 5, ErrWithLast: wl, AfterErr: 1}, Stream: true}, true)
+			})
+			devN += n
+			if !ok {
+				c.Incomplete("envelope deviations: deadline")
+			}
+		}
+	}
+	c.Count("deviation-executions", devN)
 	c.Sample("envelope", c12Env{NameLen: 4097, Type: 0xffff, Seq: -1, Env: EnvCfg{Chunk: 7, ErrWithLast: true}, Stream: true})
 	c.Done("envelopes: all 65536 message types; 9 name lengths 0..65536 x 9 types x 7 sequence ids x every fragmentation policy; 3 writers x 2 readers")
 	// (2) strict version: first-word sweeps on both readers
